@@ -152,7 +152,7 @@ Proof. repeat split; vm_compute; reflexivity. Qed.
 (* ---------------------------------------------------------------- QName element values *)
 Example guards_qn :
   wf_model u_qn root_qn = true
-  /\ fits conv_c05 u_qn ok_c05 py_isspace 1 root_qn o_qn = true
+  /\ fits conv_c05 u_qn ok_c05 py_isspace 2 root_qn o_qn = true
   /\ noq o_qn = false.
 Proof. repeat split; vm_compute; reflexivity. Qed.
 
@@ -174,7 +174,7 @@ Proof. split; vm_compute; reflexivity. Qed.
    tree, and are parsed to a different instance *)
 Theorem qname_default_ns_refuted :
   wf_model u_qn root_qn = true
-  /\ fits conv_c05 u_qn ok_c05 py_isspace 1 root_qn o_qn = true
+  /\ fits conv_c05 u_qn ok_c05 py_isspace 2 root_qn o_qn = true
   /\ (match expected_qn with Some e => reads_b e pevs_qn_default | None => true end) = false
   /\ ParserCorr.outcome_eqb (Parser.parse cfg_strict conv_c05 u_qn (Some root_qn) pevs_qn_default) (Parser.Ok o_qn []) = false
   /\ has_local_qname o_qn = true.
